@@ -324,4 +324,25 @@ theorem cgood_run (c : CSt) (os : List COp) (hg : CGood c) : CGood (crun c os) :
   | nil => exact hg
   | cons o os ih => exact ih _ (cgood_step c o hg)
 
+/-! ### the lossy model without drops is the concurrent model -/
+
+theorem lstep_reliable (l : LSt) (o : LOp) (h : o.drop = false) : (lstep l o).c = cstep l.c o.op := by
+  unfold lstep
+  cases ho : o.op with
+  | store m =>
+    simp only [h, Bool.false_and, Bool.false_eq_true, if_false]
+    split <;> (try split) <;> rfl
+  | beginSpec => simp only []; split <;> rfl
+  | beginVal => simp only []; split <;> rfl
+  | commit => rfl
+  | beginLoad f => rfl
+
+theorem lrun_reliable (l : LSt) (os : List LOp) (h : ∀ o ∈ os, o.drop = false) :
+    (lrun l os).c = crun l.c (os.map (·.op)) := by
+  induction os generalizing l with
+  | nil => rfl
+  | cons o os ih =>
+    simp only [lrun, List.map_cons, crun]
+    rw [ih _ (fun o' ho' => h o' (List.mem_cons_of_mem _ ho')), lstep_reliable l o (h o (List.mem_cons_self ..))]
+
 end Uniflow.Runtime
